@@ -74,6 +74,23 @@ var families = []family{
 	{"inline-comments-in-list", func(n int) string {
 		return "SELECT\n" + join(n, func(i int) string { return fmt.Sprintf("  c%d, -- column %d", i, i) }, "\n") + "\n  z\nFROM t"
 	}},
+	// n DISTINCT names of a kind (anything that looks a name up among those seen so far, or searches for the partner
+	// of each, pays per distinct name)
+	{"distinct-dollar-tags-unclosed", func(n int) string {
+		return "SELECT " + join(n, func(i int) string { return fmt.Sprintf("$t%07d$ x", i) }, ", ")
+	}},
+	{"distinct-dollar-tags-closed", func(n int) string {
+		return "SELECT " + join(n, func(i int) string { return fmt.Sprintf("$t%07d$ x $t%07d$", i, i) }, ", ")
+	}},
+	{"distinct-tables", func(n int) string {
+		return "SELECT * FROM " + join(n, func(i int) string { return fmt.Sprintf("tab%d", i) }, ", ")
+	}},
+	{"distinct-functions", func(n int) string {
+		return "SELECT " + join(n, func(i int) string { return fmt.Sprintf("fn%d(a)", i) }, ", ") + " FROM t"
+	}},
+	{"distinct-qualified-columns", func(n int) string {
+		return "SELECT " + join(n, func(i int) string { return fmt.Sprintf("t%d.c%d", i, i) }, ", ") + " FROM t"
+	}},
 	{"comment-only-lines", func(n int) string { return join(n, func(i int) string { return "/* c */" }, "\n") + "\nSELECT 1" }},
 	{"blanks-then-comments", func(n int) string {
 		return strings.Repeat(" ", n*5) + join(n, func(i int) string { return "/*c*/" }, "") + " SELECT 1"
@@ -273,6 +290,23 @@ func child(fam, opn string, capBytes int, out string) {
 			break
 		}
 	}
+	// quick tier: while the last doubling cost clearly more than twice as much and calls are still cheap, the ladder goes
+	// on (up to two more doublings) - a super-linear term with a small constant (a search that is fast per byte but
+	// repeated per element) only dominates on larger inputs
+	growing := func() bool {
+		p := m.Points
+		return p[len(p)-1].CPUms < 2000 && p[len(p)-1].CPUms > 2.5*p[len(p)-2].CPUms
+	}
+	if os.Getenv("VERIF_TIER") != "thorough" && len(m.Points) == 3 {
+		for k := 8 * n; k <= 16*n && growing(); k *= 2 {
+			sql := f.build(k)
+			if len(sql) > capBytes {
+				break
+			}
+			ms, al := measure(*op, sql, 3)
+			m.Points = append(m.Points, point{N: k, Bytes: len(sql), CPUms: ms, AllocB: al})
+		}
+	}
 	b, _ := json.Marshal(m)
 	if err := os.WriteFile(out, b, 0o644); err != nil {
 		core.Fatalf("%v", err)
@@ -327,11 +361,42 @@ func main() {
 					continue
 				}
 			} else if tier != "thorough" && !quickOps[o.name] && !quickFams[f.name] &&
-				!(o.name == "formatter-pkg" && strings.Contains(f.name, "comment")) { // the serialiser that re-attaches comments, on every comment family
+				!(o.name == "formatter-pkg" && strings.Contains(f.name, "comment")) && // the serialiser that re-attaches comments, on every comment family
+				!(o.name == "extract" && strings.HasPrefix(f.name, "distinct-")) { // the extractors de-duplicate names
 				continue
 			}
 			jobs = append(jobs, &job{fam: f.name, op: o.name})
 		}
+	}
+	runJob := func(j *job) {
+		h := fnv.New64a() // family names may hold characters that cannot stand in a file name
+		h.Write([]byte(j.fam))
+		out := fmt.Sprintf("%s/verif-c20-%d-%x-%s.json", os.TempDir(), os.Getpid(), h.Sum64(), j.op)
+		r := run.RunChild([]string{"--child", j.fam, j.op, strconv.Itoa(capBytes)}, out+".cov", 15*time.Minute)
+		j.failed = ""
+		switch {
+		case r.TimedOut:
+			j.failed = "timeout"
+		case r.Crashed:
+			j.failed = "crash: " + core.CrashLine(r.Text)
+		default:
+			b, err := os.ReadFile(out)
+			j.m = measurement{}
+			if err != nil || json.Unmarshal(b, &j.m) != nil {
+				core.Fatalf("child %s/%s left no result: %s", j.fam, j.op, r.Text)
+			}
+		}
+		os.Remove(out)
+	}
+	// timeSuspect: CPU time grew like a quadratic over some window of three sizes
+	timeSuspect := func(j *job) bool {
+		p := j.m.Points
+		for w := 0; w+2 < len(p); w++ {
+			if p[w].CPUms >= 15 && p[w+2].CPUms/maxf(p[w].CPUms, 0.001) > 9 && p[w+1].CPUms/p[w].CPUms > 2.9 && p[w+2].CPUms/p[w+1].CPUms > 2.9 {
+				return true
+			}
+		}
+		return false
 	}
 	var wg sync.WaitGroup
 	ch := make(chan *job, len(jobs))
@@ -339,31 +404,28 @@ func main() {
 		ch <- j
 	}
 	close(ch)
-	for w := 0; w < 10; w++ {
+	for w := 0; w < 7; w++ { // seven children of two threads each: below the sixteen cores, so that they do not slow each other down
 		wg.Add(1)
 		go func() {
 			defer wg.Done()
 			for j := range ch {
-				h := fnv.New64a() // family names may hold characters that cannot stand in a file name
-				h.Write([]byte(j.fam))
-				out := fmt.Sprintf("%s/verif-c20-%d-%x-%s.json", os.TempDir(), os.Getpid(), h.Sum64(), j.op)
-				r := run.RunChild([]string{"--child", j.fam, j.op, strconv.Itoa(capBytes)}, out+".cov", 15*time.Minute)
-				switch {
-				case r.TimedOut:
-					j.failed = "timeout"
-				case r.Crashed:
-					j.failed = "crash: " + core.CrashLine(r.Text)
-				default:
-					b, err := os.ReadFile(out)
-					if err != nil || json.Unmarshal(b, &j.m) != nil {
-						core.Fatalf("child %s/%s left no result: %s", j.fam, j.op, r.Text)
-					}
-				}
-				os.Remove(out)
+				runJob(j)
 			}
 		}()
 	}
 	wg.Wait()
+	// CPU time measured while nine other measurements (and whatever else the machine runs) compete for caches and
+	// memory bandwidth is noisy; a suspected super-linear TIME growth is measured again, alone, up to twice: a real
+	// quadratic shows every time, noise does not
+	remeasured := 0
+	for _, j := range jobs {
+		// (a pair whose growth is a listed finding is not measured again: it is what it is)
+		for try := 0; try < 2 && j.failed == "" && timeSuspect(j) && !run.IsKnown("superlinear-time|"+j.op+"|"+j.fam); try++ {
+			remeasured++
+			runJob(j)
+		}
+	}
+	run.Extra["pairs_measured_again_alone"] = remeasured
 	var table []string
 	for _, j := range jobs {
 		run.Eval(int64(len(j.m.Points)))
@@ -389,7 +451,11 @@ func main() {
 		if len(p) > 3 {
 			best, bestTr := 0, 0.0
 			for w := 0; w+2 < len(p); w++ {
-				if t := p[w+2].CPUms / maxf(p[w].CPUms, 0.001); p[w].CPUms >= 15 && t > bestTr {
+				t := p[w+2].CPUms / maxf(p[w].CPUms, 0.001)
+				if p[w].CPUms >= 15 && t > 9 && p[w+1].CPUms/p[w].CPUms > 2.9 && p[w+2].CPUms/p[w+1].CPUms > 2.9 {
+					t += 1000 // a window that meets the rule below wins over one that merely has the larger quotient
+				}
+				if p[w].CPUms >= 15 && t > bestTr {
 					best, bestTr = w, t
 				}
 			}
@@ -403,7 +469,7 @@ func main() {
 		}
 		if p[0].CPUms >= 15 {
 			run.Nontrivial(j.fam + "/" + j.op)
-			if tr > 11 && p[1].CPUms/p[0].CPUms > 2.8 && p[2].CPUms/p[1].CPUms > 2.8 {
+			if tr > 9 && p[1].CPUms/p[0].CPUms > 2.9 && p[2].CPUms/p[1].CPUms > 2.9 {
 				run.Violate(core.Violation{Sig: "superlinear-time|" + j.op + "|" + j.fam, Clause: "doubling an input roughly doubles the cost", Case: cse,
 					Observe: fmt.Sprintf("CPU time grew %.1fx over two doublings (%.0f ms -> %.0f ms)", tr, p[0].CPUms, p[2].CPUms), Expect: "about 4x (4.4x for n log n)"})
 			}
